@@ -1225,11 +1225,17 @@ impl ChessBoard {
                 self.get_castle_rights(self.side_to_move)
                     - match last_move {
                         BoardMove::MovePiece(m) => match m.get_piece_type() {
-                            Rook => match m.get_source_square().get_file() {
-                                File::H => KingSide,
-                                File::A => QueenSide,
-                                _ => Neither,
-                            },
+                            Rook => {
+                                let source = m.get_source_square();
+                                let back_rank = self.side_to_move.get_back_rank();
+                                if source == Square::from_rank_file(back_rank, H) {
+                                    KingSide
+                                } else if source == Square::from_rank_file(back_rank, A) {
+                                    QueenSide
+                                } else {
+                                    Neither
+                                }
+                            }
                             King => BothSides,
                             _ => Neither,
                         },
